@@ -815,6 +815,24 @@ func (ev *Ev) call(e *SExpr) *Val {
 	case "val":
 		v := ev.eval(args[0])
 		return mathVal(bigval(ev.st, v.X))
+	case "calls":
+		// calls("Name"): number of calls to a callee of that name executed so far on this path of the function under contract
+		if args[0].Kind != "str" {
+			specFail("calls(\"Name\")")
+		}
+		if g, ok := ev.st.Ghost["calls:"+args[0].Name]; ok {
+			return mathVal(g)
+		}
+		return mathVal(Num(0))
+	case "strbytes":
+		// strbytes(s): the bytes of a Go string as an abstract byte string (what []byte(s) holds)
+		v := ev.eval(args[0])
+		if v.K != KStr {
+			specFail("strbytes(s): s must be a string")
+		}
+		ln := App("gstr.len", SInt, v.X)
+		ev.c.addFact(Le(Num(0), ln))
+		return mathVal(ev.c.bytesVal(App("gstr.bytes", SArr(SInt, SInt), v.X), Num(0), ln))
 	case "sorted":
 		// sorted(s): exactly the window s of its backing array is the one sort.Sort / sort.Stable last sorted (ghost)
 		v := ev.eval(args[0])
